@@ -1090,6 +1090,12 @@ asn_strtoimax_lim(const char *str, const char **end, intmax_t *intp) {
         }
     }
 
+    if(*str < 0x30 || *str > 0x39) {
+        /* Not a single digit, e.g. "+-" */
+        *end = str;
+        return ASN_STRTOX_ERROR_INVAL;
+    }
+
     for(value = 0; str < (*end); str++) {
         if(*str >= 0x30 && *str <= 0x39) {
             int d = *str - '0';
@@ -1160,6 +1166,12 @@ asn_strtoumax_lim(const char *str, const char **end, uintmax_t *uintp) {
             *end = str;
             return ASN_STRTOX_EXPECT_MORE;
         }
+    }
+
+    if(*str < 0x30 || *str > 0x39) {
+        /* Not a single digit, e.g. "+-" */
+        *end = str;
+        return ASN_STRTOX_ERROR_INVAL;
     }
 
     for(value = 0; str < (*end); str++) {
